@@ -3352,11 +3352,15 @@ impl<'a, R: FileManager> FrontendCtx<'a, R> {
 
         // `{ [K in keyof T]: ... }` is homomorphic: a property that is optional in T stays optional
         let mut homomorphic_optional_keys: BTreeSet<String> = BTreeSet::new();
+        let mut bare_constraint = constraint;
+        while let TsType::TsParenthesizedType(inner) = bare_constraint {
+            bare_constraint = inner.type_ann.as_ref();
+        }
         if let TsType::TsTypeOperator(TsTypeOperator {
             op: TsTypeOperatorOp::KeyOf,
             type_ann,
             ..
-        }) = constraint
+        }) = bare_constraint
             && let Ok(source) = self.extract_type(type_ann, file_name.clone())
             && let Ok(source_obj) = self.extract_object_from_runtype(&source, &anchor)
         {
@@ -3467,11 +3471,15 @@ impl<'a, R: FileManager> FrontendCtx<'a, R> {
         };
         // a conditional type whose checked type is a naked type parameter distributes over a union
         // argument: `IsStr<string | number>` is `IsStr<string> | IsStr<number>`
+        let mut bare_check_type = t.check_type.as_ref();
+        while let TsType::TsParenthesizedType(inner) = bare_check_type {
+            bare_check_type = inner.type_ann.as_ref();
+        }
         if let TsType::TsTypeRef(TsTypeRef {
             type_name: TsEntityName::Ident(ident),
             type_params: None,
             ..
-        }) = t.check_type.as_ref()
+        }) = bare_check_type
             && let Some((name, arg)) = self
                 .type_application_stack
                 .iter()
